@@ -153,7 +153,8 @@ Inductive ev :=
 | VEnum (s : string)                       (* a ParameterKind member, serialised as its value *)
 | VList (l : list ev)
 | VName (n : string) (p : plink)           (* ExprName *)
-| VNode (cls : string) (fs : list (string * ev)).   (* any other Expr dataclass; fields sorted by name *)
+| VNode (cls : string) (fs : list (string * ev))    (* any other Expr dataclass; fields sorted by name *)
+| VInt (z : Z).                            (* an int held in a field (ExprFormatted.conversion) *)
 
 Record docstring := mkDoc { d_value : string; d_lineno : option Z; d_endlineno : option Z }.
 Record decorator := mkDeco { dc_value : ev; dc_lineno : option Z; dc_endlineno : option Z }.
@@ -192,6 +193,7 @@ Fixpoint enc_ev (e : ev) : json :=
   | VList l => JArr (map enc_ev l)
   | VName n _ => JObj [("name", JStr n); ("cls", JStr "ExprName")]
   | VNode c fs => JObj (map (fun kv => match kv with (k, v) => (k, enc_ev v) end) fs ++ [("cls", JStr c)])
+  | VInt z => JNum z
   end.
 
 Definition optnum (o : option Z) : json := match o with Some z => JNum z | None => JNull end.
@@ -272,6 +274,7 @@ Fixpoint as_ev (v : pv) : option ev :=
   | PStr s => Some (VStr s)
   | PList l => match map_opt' as_ev l with Some l' => Some (VList l') | None => None end
   | PExpr e => Some e
+  | PNum z => Some (VInt z)
   | _ => None
   end.
 Fixpoint of_ev (e : ev) : pv :=
@@ -280,6 +283,7 @@ Fixpoint of_ev (e : ev) : pv :=
   | VList l => PList (map of_ev l)
   | VName _ _ => PExpr e
   | VNode _ _ => PExpr e
+  | VInt z => PNum z
   end.
 
 Definition ev_res (v : pv) : res ev := of_option EUnmodelled (as_ev v).
@@ -293,7 +297,7 @@ Definition getitem (k : string) (d : list (string * pv)) : res pv := of_option (
 Definition class_fields (c : string) : option (list (string * c08_default)) := lookup c expr_classes.
 Definition is_required (d : c08_default) : bool := match d with DfRequired => true | _ => false end.
 Definition default_ev (d : c08_default) : ev :=
-  match d with DfRequired => VNone | DfNone => VNone | DfFalse => VBool false | DfTrue => VBool true | DfEnum v => VEnum v end.
+  match d with DfRequired => VNone | DfNone => VNone | DfFalse => VBool false | DfTrue => VBool true | DfEnum v => VEnum v | DfInt z => VInt z end.
 
 Definition is_name (e : ev) : bool := match e with VName _ _ => true | _ => false end.
 
@@ -644,7 +648,7 @@ Fixpoint relink_chain_t (prev : prevk) (l : list ev) : list ev :=
 
 Fixpoint reload_ev (e : ev) : ev :=
   match e with
-  | VNone => VNone | VBool b => VBool b | VStr s => VStr s
+  | VNone => VNone | VBool b => VBool b | VStr s => VStr s | VInt z => VInt z
   | VEnum s => VStr s
   | VList l => VList (map reload_ev l)
   | VName n _ => VName n LNone
@@ -716,7 +720,7 @@ Definition attr_values_ok (fs : list (string * ev)) : bool :=
 
 Fixpoint wf_ev (e : ev) : bool :=
   match e with
-  | VNone | VBool _ | VStr _ | VEnum _ => true
+  | VNone | VBool _ | VStr _ | VEnum _ | VInt _ => true
   | VList l => forallb wf_ev l
   | VName _ _ => true
   | VNode c fs =>
@@ -791,6 +795,7 @@ Fixpoint ev_eqb (a b : ev) : bool :=
   | VBool x, VBool y => Bool.eqb x y
   | VStr x, VStr y => String.eqb x y
   | VEnum x, VEnum y => String.eqb x y
+  | VInt x, VInt y => Z.eqb x y
   | VList x, VList y =>
       (fix go (x : list ev) (y : list ev) : bool :=
          match x, y with [], [] => true | a' :: x', b' :: y' => ev_eqb a' b' && go x' y' | _, _ => false end) x y
@@ -921,7 +926,7 @@ Fixpoint has_docstring (t : tree) : bool :=
 
 Fixpoint erase_ev (e : ev) : ev :=
   match e with
-  | VNone => VNone | VBool b => VBool b | VStr s => VStr s
+  | VNone => VNone | VBool b => VBool b | VStr s => VStr s | VInt z => VInt z
   | VEnum s => VStr s
   | VList l => VList (map erase_ev l)
   | VName n _ => VName n LNone
